@@ -84,9 +84,9 @@ Print Assumptions C13_checker_accepts_model.
    (identifiers [A-Za-z_][A-Za-z0-9_]*, not of the Rust hash form, total length <= INT_MAX) the
    demangler (with the fuel the model uses, 8*len+64) returns the qualified name
      scope::...::last[::last | ::~last | ::operator<op>]   without parameter list.
-   Not covered by the round-trip theorems: substitutions, template arguments other than builtin
-   types, local names, special names, Rust `$` escapes, non-builtin parameter types (those are
-   differential-tested only). *)
+   Not covered by the round-trip theorems: template arguments other than builtin types, substitutions
+   and templates inside the function's own name, function/array/template parameter types, local names,
+   special names, Rust `$` escapes (those are differential-tested only). *)
 Theorem C13_roundtrip_subset_partial : forall d, decl_okb d = true -> demangle (mangle d) = Str (simple_name d).
 Proof. exact roundtrip_simple_name. Qed.
 Print Assumptions C13_roundtrip_subset_partial.
@@ -132,6 +132,23 @@ Theorem C13_roundtrip_examples4 :
   qdecl_okb (str "r") td_take = false.
 Proof. exact roundtrip_examples4. Qed.
 Print Assumptions C13_roundtrip_examples4.
+
+(* general parameter types: qualifiers, class names, nested names and substitutions with ANY base-36
+   <seq-id> (any number of substitution candidates):
+     _Z N [V][K][R|O] (<source-name> [I <builtin>+ E])+ [C<n> | D<n> | <operator>] E <type>*
+     <type> ::= (r|V|K|P|R|O|C|G)* (<builtin> | S <seq-id> _ | <source-name> | N (<source-name> | S <seq-id> _)* E)
+   demangles to the qualified name *)
+Theorem C13_roundtrip_typed_partial : forall quals d tys, ydecl_okb quals d tys = true ->
+  demangle (ymangle quals d tys) = Str (simple_name (erase d)).
+Proof. exact roundtrip_typed. Qed.
+Print Assumptions C13_roundtrip_typed_partial.
+
+Theorem C13_roundtrip_examples5 :
+  ydecl_okb (str "KR") td_put ty_ex = true /\
+  ymangle (str "KR") td_put ty_ex = str "_ZNKR5store3Buf3putEPKcRNS_3BufEPS0_SG_KS10_5Other" /\
+  simple_name (erase td_put) = str "store::Buf::put".
+Proof. exact roundtrip_examples5. Qed.
+Print Assumptions C13_roundtrip_examples5.
 
 (* Rust legacy scheme: _ZN <source-name>+ 17h<16 hex digits> E demangles to the path without the hash *)
 Theorem C13_roundtrip_rust_legacy_partial : forall a cs h, rust_okb a cs h = true ->
